@@ -9,12 +9,12 @@ PROP = {
     ],
     "assumptions": ASSUME_COMMON + [
         "modelled: parser.go noteCaptureSlot/noteCaptureName/assignNameSlots/assignOrderedNameSlots/countCaptures, the group-opening and reference branches of scanRegex/scanGroupOpen/scanBasicBackslash, isCaptureSlot/isCaptureName; writer.go dense remap + mapCapnum; regexp.go GetGroupNames/GetGroupNumbers/GroupNameFromNumber/groupNameFromSlot/GroupNumberFromName; match.go GroupByName/GroupByNumber/Groups naming; replacerdata.go + scanDollar reference resolution for ${n} and ${name}",
-        "theorem hypotheses (ts_ok): TNamed names do not start with a digit (the scanner reads those as numbers); explicit numbers and pattern length stay away from 2^31-1 where noteCaptureSlot saturates; under MaintainCaptureOrder/RE2 no explicit numbers (known finding mco_digit_names, refuted without the guard)",
+        "theorem hypotheses (ts_ok): TNamed names do not start with a digit (the scanner reads those as numbers); explicit numbers and pattern length stay away from 2^31-1 where noteCaptureSlot saturates; under MaintainCaptureOrder/RE2 no explicit numbers (known finding mco_digit_names: the name<->number round trip is refuted without the guard; for the pre-scan/main-pass agreement the guard is no longer known to be necessary since /repo 2b27550, the harness compares the model with the code on such patterns on every run)",
         "not modelled: balancing groups (?<a-b>), the Unicode 'u' option's effect on ECMAScript \\k, ECMAScript's longest-prefix rule for unbraced $n, errors for '\\8x'/'\\9x' escapes, ErrTooManyAlternates; that the number of every node the main pass creates is a group number is checked by the legs (node sequence of the exported tree), not proved",
     ],
 }
 TEXT = {
-    "text": "Over the executable model of the capture pre-scan, slot assignment, main pass, writer remap and lookups (Model/GroupMap.v), for every token list: the table is well formed (C17_table_well_formed_partial), the documented numbering rule holds (C17_numbering_rule_default: full; C17_numbering_rule_ordered_partial), the main pass numbers each group exactly as the pre-scan reserved it (C17_prescan_agrees_with_parse_partial), number->slot is a monotone bijection onto [0,capsize) (C17_dense_map_bijective), and GetGroupNames/GetGroupNumbers/GroupNameFromNumber/GroupNumberFromName/GroupByName/GroupByNumber/Groups/$n/${name}/mapCapnum all designate the same group (C17_maps_consistent, C17_refs_use_same_map, C17_names_point_to_groups_partial). The unguarded statements are refuted for MaintainCaptureOrder with digit names (C17_prescan_agrees_refuted, C17_name_number_roundtrip_refuted; known finding). The model is tied to the code by differential legs on generated token lists x 4 modes (Parse/Write/Regexp/Match/NewReplacerData outputs, error codes, node numbers) and by direct cross-route checks on captured text.",
+    "text": "Over the executable model of the capture pre-scan, slot assignment, main pass, writer remap and lookups (Model/GroupMap.v), for every token list: the table is well formed (C17_table_well_formed_partial), the documented numbering rule holds (C17_numbering_rule_default: full; C17_numbering_rule_ordered_partial), the main pass numbers each group exactly as the pre-scan reserved it (C17_prescan_agrees_with_parse_partial), number->slot is a monotone bijection onto [0,capsize) (C17_dense_map_bijective), and GetGroupNames/GetGroupNumbers/GroupNameFromNumber/GroupNumberFromName/GroupByName/GroupByNumber/Groups/$n/${name}/mapCapnum all designate the same group (C17_maps_consistent, C17_refs_use_same_map, C17_names_point_to_groups_partial). The unguarded name<->number round trip is refuted for MaintainCaptureOrder with digit names (C17_name_number_roundtrip_refuted: GetGroupNames [0 2 2 n]); the other former refutation, C17_prescan_agrees_refuted, fell with the repair /repo 2b27550 (the main pass now files digits as a name like the pre-scan: C17_prescan_agrees_on_old_witness, C17_witness_mco_accepts), the guarded theorem still carries the no-explicit-numbers hypothesis under MaintainCaptureOrder; known finding mco_digit_names). The model is tied to the code by differential legs on generated token lists x 4 modes (Parse/Write/Regexp/Match/NewReplacerData outputs, error codes, node numbers) and by direct cross-route checks on captured text.",
     "design_ref": "DESIGN.md §4 C17",
     "note": "Coq kernel; no axioms. Four genuine defects were found and fixed in /repo's working tree (Groups()[i].Name with sparse numbers, GroupByNumber on a non-number with sparse numbers, GroupNumberFromName(\"\")/overflow, ignoreNextParen surviving a non-plain condition group); one known finding remains (mco_digit_names).",
     "technique": "Coq proof (invariants + simulation between the two parser passes) over executable model + differential correspondence via extraction",
